@@ -30,6 +30,7 @@ import (
 	coreblock "github.com/sourcenetwork/defradb/internal/core/block"
 	"github.com/sourcenetwork/defradb/internal/core/crdt"
 	"github.com/sourcenetwork/defradb/internal/datastore"
+	"github.com/sourcenetwork/defradb/internal/db/description"
 	"github.com/sourcenetwork/defradb/internal/db/id"
 	"github.com/sourcenetwork/defradb/internal/keys"
 	"github.com/sourcenetwork/defradb/internal/planner/mapper"
@@ -245,6 +246,13 @@ func (vf *VersionedFetcher) seekTo(c cid.Cid) error {
 	vf.queuedCids = list.New()
 	vf.mergedCids = make(map[cid.Cid]struct{})
 
+	// The commit must belong to the collection that is being queried: rebuilding the state of a
+	// document of another collection with the fields of this one would produce a document that
+	// never existed here, readable under the access rules of the wrong collection.
+	if err := vf.verifyCollectionOfCommit(c); err != nil {
+		return err
+	}
+
 	// recursive step through the graph
 	err := vf.seekNext(c, true)
 	if err != nil {
@@ -284,6 +292,31 @@ func (vf *VersionedFetcher) seekTo(c cid.Cid) error {
 	// which is actually the serialized state of the CRDT graph at
 	// the exact version
 
+	return nil
+}
+
+// verifyCollectionOfCommit returns an error if the block with the given CID was written under a
+// schema version that is known to belong to another collection than the one being queried.
+func (vf *VersionedFetcher) verifyCollectionOfCommit(c cid.Cid) error {
+	blk, err := vf.txn.Blockstore().Get(vf.ctx, c)
+	if err != nil {
+		return NewErrVFetcherFailedToGetBlock(err)
+	}
+	block, err := coreblock.GetFromBytes(blk.RawData())
+	if err != nil {
+		return NewErrVFetcherFailedToDecodeNode(err)
+	}
+	version, err := description.GetCollectionByID(vf.ctx, block.Delta.GetSchemaVersionID())
+	if errors.Is(err, corekv.ErrNotFound) {
+		// A version that is not known locally can not be attributed to another collection.
+		return nil
+	}
+	if err != nil {
+		return err
+	}
+	if version.CollectionID != vf.col.Version().CollectionID {
+		return client.NewErrCollectionNotFoundForCollectionVersion(block.Delta.GetSchemaVersionID())
+	}
 	return nil
 }
 
